@@ -83,6 +83,7 @@ def scan_function(prog: Program, m: ModuleInfo, qual: str, fn: ast.FunctionDef, 
     """Ambient effects of one function body (nested functions included)."""
     hits: list[Hit] = []
     local = local_names(fn)
+    set_names = _set_names(fn)
     # function-local imports shadow nothing: resolve them like module imports
     local_imports = {}
     for n in ast.walk(fn):
@@ -147,11 +148,63 @@ def scan_function(prog: Program, m: ModuleInfo, qual: str, fn: ast.FunctionDef, 
                 hits.append(Hit("item-assignment", ast.unparse(n), m.relpath, qual, n.lineno))
         elif isinstance(n, (ast.For, ast.comprehension)):
             it = n.iter
-            if isinstance(it, ast.Call) and isinstance(it.func, ast.Name) and it.func.id in ("set", "frozenset"):
-                hits.append(Hit("set-iteration", ast.unparse(it), m.relpath, qual, n.iter.lineno))
-            if isinstance(it, (ast.Set, ast.SetComp)):
+            if _set_valued(it, set_names):
                 hits.append(Hit("set-iteration", ast.unparse(it)[:40], m.relpath, qual, n.iter.lineno))
+        if isinstance(n, ast.Call) and isinstance(n.func, ast.Name) and n.func.id in ("list", "tuple", "iter", "enumerate", "zip", "next") and any(
+                _set_valued(a, set_names) for a in n.args):
+            # materialising a set in its iteration order is the same leak without a loop
+            hits.append(Hit("set-iteration", ast.unparse(n)[:40], m.relpath, qual, n.lineno))
     return hits
+
+
+SET_METHODS = {"union", "intersection", "difference", "symmetric_difference", "copy"}
+
+
+def _set_valued(e: ast.expr, names: set[str]) -> bool:
+    """the expression is a set / frozenset whatever its operands hold: its iteration order follows the elements' hashes, which for str /
+    bytes are salted per interpreter process. Set displays and comprehensions, set() / frozenset(), the binary set algebra of dict views
+    (`a.keys() & b.keys()` is a set, although each view alone is ordered), set methods, and a local name bound only to such values."""
+    if isinstance(e, (ast.Set, ast.SetComp)):
+        return True
+    if isinstance(e, ast.Name):
+        return e.id in names
+    if isinstance(e, ast.Call):
+        if isinstance(e.func, ast.Name) and e.func.id in ("set", "frozenset"):
+            return True
+        if isinstance(e.func, ast.Attribute) and e.func.attr in SET_METHODS and _set_valued(e.func.value, names):
+            return True
+        return False
+    if isinstance(e, ast.BinOp) and isinstance(e.op, (ast.BitAnd, ast.BitOr, ast.Sub, ast.BitXor)):
+        def view(x):
+            return isinstance(x, ast.Call) and isinstance(x.func, ast.Attribute) and x.func.attr in ("keys", "items") and not x.args
+        return _set_valued(e.left, names) or _set_valued(e.right, names) or view(e.left) or view(e.right)
+    if isinstance(e, ast.IfExp):
+        return _set_valued(e.body, names) and _set_valued(e.orelse, names)
+    return False
+
+
+def _set_names(fn: ast.FunctionDef) -> set[str]:
+    """local names every binding of which is set-valued (fixpoint over plain assignments; a name that is also a parameter, a loop
+    target or bound any other way is not counted)"""
+    binds: dict[str, list] = {}
+    other = {a.arg for a in ast.walk(fn) if isinstance(a, ast.arg)}
+    for n in ast.walk(fn):
+        if isinstance(n, ast.Assign) and len(n.targets) == 1 and isinstance(n.targets[0], ast.Name):
+            binds.setdefault(n.targets[0].id, []).append(n.value)
+        elif isinstance(n, ast.AnnAssign) and isinstance(n.target, ast.Name) and n.value is not None:
+            binds.setdefault(n.target.id, []).append(n.value)
+        elif isinstance(n, ast.Name) and isinstance(n.ctx, ast.Store):
+            pass
+    stores: dict[str, int] = {}
+    for n in ast.walk(fn):
+        if isinstance(n, ast.Name) and isinstance(n.ctx, ast.Store):
+            stores[n.id] = stores.get(n.id, 0) + 1
+    names: set[str] = set()
+    while True:
+        new = {k for k, vs in binds.items() if k not in other and stores.get(k, 0) == len(vs) and all(_set_valued(v, names) for v in vs)}
+        if new == names:
+            return names
+        names = new
 
 
 def _with_imports(m: ModuleInfo, extra: dict) -> ModuleInfo:
